@@ -297,7 +297,7 @@ class SupervisedOPF(OPF):
                 if n.status != c.PROTOTYPE:
                     non_prototypes += 1
 
-            for err in errors:
+            for err in errors.ravel():
                 ctr = non_prototypes
 
                 while ctr > 0:
